@@ -432,6 +432,7 @@ func checkBtcCommitHeader(c *core.Ctx) {
 }
 
 func runC28(c *core.Ctx) {
+	checkEthashSizeStep(c)
 	nGS := checkCmpGuardsSub(c, "C28.guard-use-agreement", pkEthHS)
 	c.Floor("guarded big-integer subtractions in the ETH header rules", nGS, 1)
 	e := ethContext(c)
